@@ -434,6 +434,13 @@ func (d *driver) judge(ref *refChain, res map[cfg]*runResult, x *runResult, only
 	}
 }
 
+func shortList(a []string, n int) string {
+	if len(a) <= n {
+		return strings.Join(a, " ")
+	}
+	return strings.Join(a[:n], " ") + fmt.Sprintf(" (+%d more, see chains_skipped_by_time_cap)", len(a)-n)
+}
+
 func firstDiffShort(xv, yv string, left bool) string {
 	if !strings.Contains(xv, "\n") && !strings.Contains(yv, "\n") && len(xv) < 200 && len(yv) < 200 {
 		if left {
@@ -559,7 +566,7 @@ func main() {
 		run.Finish(nil, nil)
 	}
 
-	chains := []string{"K2", "A", "C"}
+	chains := []string{"K2", "C", "A"} // C (no KV transaction: nothing excuses a difference) before A: under a time cap the most discriminating chain completes first
 	ws := []int{1, 2, 8}
 	if !run.Quick() {
 		chains = append(chains, "B", "D", "E")
@@ -611,7 +618,7 @@ func main() {
 	// wall-clock cap: when it is reached no further batch is started; chains
 	// whose runs are then incomplete are not judged and listed as skipped
 	// (exhaustive:false).  A cap never produces a verdict.
-	capS := run.Pick(75, 780)
+	capS := run.Pick(85, 780)
 	if v := os.Getenv("C05_TIME_CAP"); v != "" {
 		fmt.Sscanf(v, "%d", &capS)
 	}
@@ -633,58 +640,77 @@ func main() {
 		return all
 	}
 
-	// round 1: the reference replicas build the chains (one worker, one lifetime)
-	var refJobs []wireJob
+	// The chains are processed in groups, in priority order (the 6-block chains
+	// first, then the ordering chains 20 at a time).  Per group: round 1, the
+	// reference replicas build the chains (one worker, one lifetime); round 2,
+	// every other configuration is fed the reference's blocks.
+	var groups [][]string
+	var cur []string
 	for _, name := range chains {
-		refJobs = append(refJobs, wireJob{Chain: name, Cfg: cfg{P: 0, W: 1}})
+		isOrd := strings.HasPrefix(name, "ord-")
+		if len(cur) > 0 && ((isOrd != strings.HasPrefix(cur[0], "ord-")) || (isOrd && len(cur) >= 20) || (!isOrd && len(cur) >= 3)) {
+			groups = append(groups, cur)
+			cur = nil
+		}
+		cur = append(cur, name)
 	}
-	capSaved := capS
-	capS = 0 // the references are always built
-	refRuns := runBatches(batchUp(refJobs, 6))
-	capS = capSaved
-	for _, sp := range refRuns {
-		name := sp.rr.Chain
-		d.results[name] = map[cfg]*runResult{sp.rr.Cfg: sp.rr}
-		if sp.ref == nil {
-			sp.ref = &wireRef{}
-		}
-		d.refs[name] = fromWireRef(defs[name], sp.ref)
-		d.refs[name].res = sp.rr
-	}
-	// round 2: every other configuration, fed the reference's blocks
-	var jobs []wireJob
-	for _, name := range chains {
-		ref := d.refs[name]
-		if ref.res.Fail != nil {
-			continue
-		}
-		n := len(ref.def.Blocks)
-		cs := configs(n, ws)
-		if strings.HasPrefix(name, "ord-") {
-			// the 120 ordering chains: the full partition × worker grid, without the extra replicas
-			cs = cs[:0]
-			for _, c := range configs(n, ws) {
-				if c.W != 0 && c.Rep == 0 {
-					cs = append(cs, c)
-				}
-			}
-		}
-		wr := toWireRef(ref)
-		for _, c := range cs {
-			jobs = append(jobs, wireJob{Chain: name, Cfg: c, Ref: wr})
-		}
+	if len(cur) > 0 {
+		groups = append(groups, cur)
 	}
 	expected := map[string]int{}
-	for _, j := range jobs {
-		expected[j.Chain]++
-	}
-	for _, sp := range runBatches(batchUp(jobs, 36)) {
-		d.results[sp.rr.Chain][sp.rr.Cfg] = sp.rr
+	capped := func() bool { return capS > 0 && time.Since(t0) > time.Duration(capS)*time.Second }
+	for gi, group := range groups {
+		if gi > 0 && capped() {
+			break // chains of the remaining groups are listed as skipped below
+		}
+		var refJobs []wireJob
+		for _, name := range group {
+			refJobs = append(refJobs, wireJob{Chain: name, Cfg: cfg{P: 0, W: 1}})
+		}
+		capSaved := capS
+		capS = 0 // the references of a started group are always built
+		refRuns := runBatches(batchUp(refJobs, 6))
+		capS = capSaved
+		for _, sp := range refRuns {
+			name := sp.rr.Chain
+			d.results[name] = map[cfg]*runResult{sp.rr.Cfg: sp.rr}
+			if sp.ref == nil {
+				sp.ref = &wireRef{}
+			}
+			d.refs[name] = fromWireRef(defs[name], sp.ref)
+			d.refs[name].res = sp.rr
+		}
+		var jobs []wireJob
+		for _, name := range group {
+			ref := d.refs[name]
+			if ref.res.Fail != nil {
+				continue
+			}
+			n := len(ref.def.Blocks)
+			cs := configs(n, ws)
+			if strings.HasPrefix(name, "ord-") {
+				// the 120 ordering chains: the full partition × worker grid, without the extra replicas
+				cs = cs[:0]
+				for _, c := range configs(n, ws) {
+					if c.W != 0 && c.Rep == 0 {
+						cs = append(cs, c)
+					}
+				}
+			}
+			wr := toWireRef(ref)
+			for _, c := range cs {
+				jobs = append(jobs, wireJob{Chain: name, Cfg: c, Ref: wr})
+				expected[name]++
+			}
+		}
+		for _, sp := range runBatches(batchUp(jobs, 36)) {
+			d.results[sp.rr.Chain][sp.rr.Cfg] = sp.rr
+		}
 	}
 	skippedChains := []string{}
 	var judged []string
 	for _, name := range chains {
-		if d.refs[name].res.Fail == nil && len(d.results[name]) != expected[name]+1 {
+		if d.refs[name] == nil || (d.refs[name].res.Fail == nil && len(d.results[name]) != expected[name]+1) {
 			skippedChains = append(skippedChains, name)
 			continue
 		}
@@ -775,9 +801,10 @@ func main() {
 	} else {
 		notes = append(notes, "free-running -race pass: thorough tier only (set C05_RACE=1 to force it in the quick tier)")
 	}
-	restricted := os.Getenv("C05_CHAINS") != "" || len(skippedChains) > 0
+	restricted := os.Getenv("C05_CHAINS") != ""
+	incomplete := restricted || len(skippedChains) > 0
 	if len(skippedChains) > 0 {
-		notes = append(notes, fmt.Sprintf("TIME CAP of %d s reached: %d batches not started; chains not judged (incomplete): %s; largest bound completed: all partitions × all worker counts of the %d chains listed in chain order before them", capS, skippedBatches, strings.Join(skippedChains, " "), len(chains)))
+		notes = append(notes, fmt.Sprintf("TIME CAP of %d s reached: %d batches not started; chains not judged (incomplete): %s; largest bound completed: all partitions × all worker counts of the %d chains listed in chain order before them", capS, skippedBatches, shortList(skippedChains, 8), len(chains)))
 	}
 	if restricted {
 		notes = append(notes, "DEVELOPMENT RUN: chains restricted by C05_CHAINS="+os.Getenv("C05_CHAINS"))
@@ -808,7 +835,7 @@ func main() {
 		"evaluations":                   int(d.evals),
 		"distinct_nontrivial":           d.records.Len(),
 		"rule": "for each fixed chain: the reference replica (one lifetime, 1 worker) builds the blocks; then EVERY partition of the chain into process lifetimes (2^(n-1): Stop()+NewEVMApp+Start on the same directory after the chosen blocks) × EVERY worker count in the list is run on a fresh directory and fed exactly those blocks, plus default-worker-count catch-up replicas (one lifetime / restart after every block) and repeated identical configurations; every run ends with one more restart after which the query list is read again. Compared per block and per component (app-hash, receipts-hash, execute-result, 7 query classes): same partition vs 1 worker; same workers vs unpartitioned run (receipts-hash: vs the smallest partition whose executing lifetime had applied the same earlier KV transactions, that one vs the unpartitioned run); repeated runs; after-restart answers vs before-restart answers. states = distinct (chain, height, first block of the executing lifetime, workers); distinct_nontrivial = distinct (chain, height, full record) values observed",
-		"exhaustive":               !restricted,
+		"exhaustive":               !incomplete,
 		"chains":                   len(chains),
 		"chains_skipped_by_time_cap": skippedChains,
 		"time_cap_s":               capS,
